@@ -428,6 +428,22 @@ fn main() {
             ));
         }
     }
+    if !c04 {
+        // an open callback that creates one index and removes another, from a state where the
+        // index to create is absent (documents flushed, index dropped by an earlier clean reopen)
+        start_states.push((
+            "noemb",
+            vec![Op::Add(0), Op::Add(1), Op::Flush, Op::ReopenWith(IdxDelta::DropEmb)],
+            vec![Op::ReopenWith(IdxDelta::AddEmbDropTags), Op::Update(1, 7), Op::Add(3), Op::Flush, Op::Reopen, Op::ReopenWith(IdxDelta::AddEmb)],
+            run.tier.pick(2, 3),
+        ));
+        start_states.push((
+            "nobody",
+            vec![Op::Add(0), Op::Add(1), Op::Flush, Op::ReopenWith(IdxDelta::DropBody)],
+            vec![Op::ReopenWith(IdxDelta::AddBodyDropName), Op::Update(1, 5), Op::Add(3), Op::Flush, Op::Reopen, Op::Remove(2)],
+            run.tier.pick(2, 3),
+        ));
+    }
     let run_thorough = run.tier == vcore::Tier::Thorough;
     for (sname, prelude, bulk_ops, max_d) in start_states {
         if run.violation_count() > 0 || Instant::now() >= deadline {
